@@ -33,6 +33,32 @@ int main(int argc, char **argv)
             g = w == 16 ? a_u16_getb(b) : w == 32 ? a_u32_getb(b) : a_u64_getb(b); if (g != bb) { printf("getb -> 0x%llx want 0x%llx\n", (unsigned long long)g, (unsigned long long)bb); return rp_fail("getb layout"); } }
         return 0;
     }
+    if (strstr(m, "squares")) {
+        /* the unit's family: n = 2^k + j, 2^k - 1 - j; x in {n^2 - 1, n^2, n^2 + 2n} */
+        int w64 = strstr(m, "64") != 0, k, j, s, d;
+        for (k = 2; k <= (w64 ? 32 : 16); ++k) for (j = 0; j < 4; ++j) for (s = 0; s < 2; ++s) {
+            uint64_t n = s ? ((uint64_t)1 << k) - 1 - j : ((uint64_t)1 << k) + j, xs[3];
+            if (n >> (w64 ? 32 : 16) || n == 0) continue;
+            xs[0] = n * n - 1; xs[1] = n * n; xs[2] = n * n + 2 * n;
+            for (d = 0; d < 3; ++d) {
+                uint64_t r = w64 ? a_u64_sqrt(xs[d]) : a_u32_sqrt((a_u32)xs[d]), e = isqrt_ref(xs[d]);
+                if (r != e) { printf("a_u%d_sqrt(%llu) = %llu, floor sqrt = %llu (n = %llu)\n", w64 ? 64 : 32, (unsigned long long)xs[d], (unsigned long long)r, (unsigned long long)e, (unsigned long long)n); return rp_fail("wrong integer square root next to a perfect square"); }
+            }
+        }
+        return 0;
+    }
+    if (!strncmp(m, "lcm", 3)) {
+        /* lcm on wide arguments against an independent Euclid: a = A << s, b = B (and swapped), A, B < 64 */
+        int w64 = strstr(m, "64") != 0, s; uint64_t A, B;
+        for (s = 0; s <= (w64 ? 40 : 20); s += (w64 ? 8 : 5)) for (A = 1; A < 64; ++A) for (B = 1; B < 64; ++B) {
+            uint64_t a = A << s, b = B, u = a, v = b, t, g, l, l2;
+            while (v) { t = u % v; u = v; v = t; }
+            g = u;
+            l = w64 ? a_u64_lcm(a, b) : a_u32_lcm((a_u32)a, (a_u32)b); l2 = w64 ? a_u64_lcm(b, a) : a_u32_lcm((a_u32)b, (a_u32)a);
+            if (l != a / g * b || l2 != l) { printf("a_u%d_lcm(%llu, %llu) = %llu / %llu, expected %llu (gcd %llu)\n", w64 ? 64 : 32, (unsigned long long)a, (unsigned long long)b, (unsigned long long)l, (unsigned long long)l2, (unsigned long long)(a / g * b), (unsigned long long)g); return rp_fail("lcm * gcd != a * b for a representable product"); }
+        }
+        return 0;
+    }
     if (!strncmp(m, "sqrt32", 6)) { uint64_t r = a_u32_sqrt((a_u32)x), e = isqrt_ref((a_u32)x); if (r != e) { printf("a_u32_sqrt(%llu) = %llu, floor sqrt = %llu\n", (unsigned long long)(a_u32)x, (unsigned long long)r, (unsigned long long)e); return rp_fail("wrong integer square root"); } return 0; }
     if (!strncmp(m, "sqrt64", 6)) { uint64_t r = a_u64_sqrt(x), e = isqrt_ref(x); if (r != e) { printf("a_u64_sqrt(%llu) = %llu, floor sqrt = %llu\n", (unsigned long long)x, (unsigned long long)r, (unsigned long long)e); return rp_fail("wrong integer square root"); } return 0; }
     if (!strncmp(m, "gcd", 3)) {
